@@ -119,6 +119,16 @@ def s_abstract_int(E, a, k):
     return SInt(t, None, lo, hi)
 
 
+def s_abstract_real(E, a, k):
+    name, lo, hi = a[0], a[1], a[2]
+    key = name + "(" + ",".join(E.term_key(E.force(x)) for x in a[3:]) + ")"
+    import hashlib
+    t = z3.Real("absr_%s_%s" % (name, hashlib.sha1(key.encode()).hexdigest()[:12]))
+    E.ps.add(z3.And(t >= lo, t <= hi))
+    E.trusted.add("abstract contract: %s(args) is some real in [%s, %s] determined by its arguments" % (name, lo, hi))
+    return SReal(t)
+
+
 def s_hexdigit_value(E, a, k):
     v = E.force(a[0])
     if isinstance(v, int):
@@ -164,6 +174,7 @@ def members():
     m["frac"] = Builtin("frac", lambda E, a, k: BM.binop(E, "/", E.force(a[0]), E.force(a[1])))
     m["pi_const"] = Builtin("pi_const", lambda E, a, k: BM.pi_value(E))
     m["abstract_int"] = Builtin("abstract_int", s_abstract_int)
+    m["abstract_real"] = Builtin("abstract_real", s_abstract_real)
     m["AssumptionFailed"] = None
     from .interp import ClassValue
     m["Domain"] = ClassValue("Domain", [], {}, "vc.api.Domain")
